@@ -51,7 +51,30 @@ def gen(seed: int, tier: str, idx=None):
         name = pool[(j - (j // 20) * 7) % len(pool)] if idx is not None else pool[j % len(pool)]
         g.emit({"op": "layout_compare", "name": name, "specs": specs, "deep_cap": cap})
         return cfg, g.ops
-    cls = rng0.choice(["small", "small", "tile", "wide"])
+    cls = rng0.choice(["small", "small", "tile", "wide", "bigstrings"])
+    if cls == "bigstrings":
+        # one archive (the string list) far beyond 64 KiB even after compression, so that a re-chunking into
+        # few large chunks produces compressed chunks whose length needs all 24 bits of the length field
+        import string
+
+        alphabet = string.ascii_letters + string.digits + "+/äöüß€"
+        # distinct strings built from a small vocabulary: compressible (so the library's own 64 KiB chunks stay
+        # well below 64 KiB compressed and the ORIGINAL is read correctly) yet large as a whole
+        vocab = ["".join(rng.choice(alphabet) for _ in range(rng.randint(4, 10))) for _ in range(150)]
+        n = rng0.randint(300, 420)
+        g.emit({"op": "new_doc", "rows": n, "cols": 1, "hr": 0, "hc": 0})
+        for r in range(n):
+            g.emit({"op": "write", "d": 0, "s": 0, "t": 0, "r": r, "c": 0, "v": V.enc(f"{r} " + " ".join(rng.choice(vocab) for _ in range(110)))})
+        slot = rng.choice(ALL_SLOTS)
+        g.emit({"op": "save", "d": 0, "slot": slot})
+        g.emit({"op": "restart", "d": 0, "slot": slot, "replace": False})
+        big = dict(specs[0])
+        big["kinds"] = sorted(set(big["kinds"]) | {"rechunk"})
+        big["chunk"] = rng.choice(["whole", 200_000, 1_000_000, 131_072])
+        g.emit({"op": "layout_compare", "slot": slot, "specs": [big], "deep_cap": cap})
+        g.emit({"op": "relayout_slot", "slot": slot, "spec": big})
+        g.emit({"op": "restart", "d": 0, "slot": slot})
+        return cfg, g.ops
     if cls == "small":
         rows, cols = rng0.randint(2, 12), rng0.randint(2, 8)
     elif cls == "tile":
